@@ -20,6 +20,8 @@ use std::panic::{catch_unwind, AssertUnwindSafe};
 
 #[path = "mgrparsers/extra.rs"]
 mod extra;
+#[path = "mgrparsers/consumers.rs"]
+mod consumers;
 
 fn s_of(h: &str) -> Option<String> {
     String::from_utf8(unhex(h)?).ok()
@@ -126,7 +128,7 @@ fn exec(line: &str, tmp: &std::path::Path) -> (String, String) {
                     Err(_) => format!("len={len} err"),
                 }
             }
-            other => extra::exec(other, tmp, &mut op).unwrap_or_else(|| "bad-op".into()),
+            other => extra::exec(other, tmp, &mut op).or_else(|| consumers::exec(other, tmp, &mut op)).unwrap_or_else(|| "bad-op".into()),
         }
     }));
     (op, r.unwrap_or_else(|_| "panic".into()))
@@ -166,7 +168,10 @@ fn oracle(line: &str, res: &str, out: &mut Out) {
                 out.oracle_fail("increment-exact", line, &format!("got {res}, expected {want}"));
             }
         }
-        other => extra::oracle(other, res, line, out),
+        other => {
+            extra::oracle(other, res, line, out);
+            consumers::oracle(other, res, line, out);
+        }
     }
 }
 
@@ -454,6 +459,7 @@ fn main() {
             }
         }
         v.extend(extra::generate(&mut rng, args.n));
+        v.extend(consumers::generate(&mut rng, args.n));
         v
     };
     for l in &lines {
